@@ -144,6 +144,22 @@ def date_case(n):
     return v, obs
 
 
+def date_dt_case(y, m, d, hh, mm, ss, us, cls):
+    """Date(datetime.datetime / datetime.date): the day count must be that of the calendar day, whatever the time of day"""
+    from cassandra.util import Date
+    v = []
+    arg = datetime.datetime(y, m, d, hh, mm, ss, us) if cls == 'datetime' else datetime.date(y, m, d)
+    got = Date(arg).days_from_epoch
+    want = (datetime.date(y, m, d) - datetime.date(1970, 1, 1)).days
+    obs = {'arg': repr(arg), 'days': got}
+    if got != want:
+        v.append(('Date.from_datetime.wrong_day', 'Date(%r).days_from_epoch = %d (%s), the calendar day is %d (%04d-%02d-%02d)'
+                  % (arg, got, Date(got), want, y, m, d)))
+    elif str(Date(arg)) != '%04d-%02d-%02d' % (y, m, d) or Date(arg).date() != datetime.date(y, m, d) or not (Date(arg) == datetime.date(y, m, d)):
+        v.append(('Date.from_datetime.roundtrip', 'Date(%r) prints %s / date() %r' % (arg, Date(arg), Date(arg).date())))
+    return v, obs
+
+
 def time_int_case(n):
     from cassandra.util import Time
     v = []
@@ -279,6 +295,8 @@ def run_case(case):
     t = case['t']
     if t == 'date':
         return date_case(case['n'])
+    if t == 'date_dt':
+        return date_dt_case(case['y'], case['m'], case['d'], case['hh'], case['mm'], case['ss'], case.get('us', 0), case.get('cls', 'datetime'))
     if t == 'time_int':
         return time_int_case(case['n'])
     if t == 'time_str':
@@ -346,6 +364,28 @@ def run(ctx):
         terms.append('triple_eqb (civil_from_days %s) (%d, %d, %d) && (days_from_civil %d %d %d =? %s) && codes_eqb (date_str %s) %s '
                      '&& optz_eqb (date_of_str %s) (Some %s)'
                      % (zl(n), y, m, d, y, m, d, zl(n), zl(n), codes(obs['str']), codes(obs['str']), zl(n)))
+        meta.append(case)
+    # Date(datetime.datetime) / Date(datetime.date): any year, any time of day (before 1970 the second count is negative)
+    tods = [(0, 0, 0), (0, 0, 1), (12, 0, 0), (23, 59, 59), (0, 1, 0), (1, 0, 0)]
+    dts = [(y, m, d) + tod for (y, m, d) in ((1, 1, 1), (1, 12, 31), (1582, 10, 15), (1900, 2, 28), (1900, 3, 1), (1969, 12, 31), (1970, 1, 1),
+                                            (1970, 1, 2), (1968, 2, 29), (2000, 2, 29), (2038, 1, 19), (9999, 12, 31)) for tod in tods]
+    for _ in range(300 if ctx.tier == 'quick' else 5000):
+        y = rng.choice([rng.randint(1, 9999), rng.randint(1, 1969), rng.randint(1900, 2100)])
+        m = rng.randint(1, 12)
+        d = rng.randint(1, [31, 29 if (y % 4 == 0 and y % 100 != 0) or y % 400 == 0 else 28, 31, 30, 31, 30, 31, 31, 30, 31, 30, 31][m - 1])
+        dts.append((y, m, d) + (rng.choice(tods) if rng.random() < 0.3 else (rng.randint(0, 23), rng.randint(0, 59), rng.randint(0, 59))))
+    for (y, m, d, hh, mm, ss) in dts:
+        case = {'t': 'date_dt', 'y': y, 'm': m, 'd': d, 'hh': hh, 'mm': mm, 'ss': ss, 'us': rng.choice([0, 1, 999999, rng.randrange(10 ** 6)]),
+                'cls': 'datetime' if rng.random() < 0.85 else 'date'}
+        v, obs = run_case(case)
+        ctx.case(case, nontrivial=True, sample=obs if (y, hh) == (1969, 12) else None)
+        ctx.count('kind', 'date_from_' + case['cls'])
+        ctx.count('date_from_datetime', ('before_1970' if y < 1970 else 'from_1970') + ('.midnight' if (hh, mm, ss) == (0, 0, 0) or case['cls'] == 'date' else '.time_of_day'))
+        report(case, v)
+        if case['cls'] == 'date':
+            hh = mm = ss = 0
+        terms.append('(date_from_datetime %d %d %d %d %d %d =? %s) && valid_date %d %d %d && valid_tod %d %d %d'
+                     % (y, m, d, hh, mm, ss, zl(obs['days']), y, m, d, hh, mm, ss))
         meta.append(case)
     # outside years 1..9999 the class prints the day count (documented fallback); the model is total
     for n in (MIN_DAY - 1, MAX_DAY + 1, -10 ** 7, 10 ** 7, 2 ** 40):
@@ -477,7 +517,7 @@ def run(ctx):
         c = cass_cmp(a, b)
         terms.append('match cass_compare %s %s with %s => true | _ => false end' % (g_uuid(a), g_uuid(b), {-1: 'Lt', 0: 'Eq', 1: 'Gt'}[c]))
         meta.append({'t': 'cmp', 'a': a.int, 'b': b.int})
-    ctx.rule = ('dates: boundary days (month ends of 12 marker years, leap days, range ends) + uniform sample of years 1..9999 '
+    ctx.rule = ('dates: Date(datetime.datetime/date) over years 1..9999 with boundary and random times of day; boundary days (month ends of 12 marker years, leap days, range ends) + uniform sample of years 1..9999 '
                 '(thorough: ALL 3,652,059 days); Time: nanosecond boundaries, uniform in-day sample, out-of-range ints, well-formed and '
                 'malformed strings with 0..9 fraction digits; time-UUIDs: boundary pools x random for (microseconds, node, clock) via '
                 'float / int / naive datetime / timezone-aware datetime (+05:30, -08:00, +14:00, UTC, DST zone) arguments; non-trivial = every distinct input')
